@@ -138,12 +138,13 @@ type wsResult struct {
 }
 
 type wsServer struct {
-	ln      net.Listener
-	port    int
-	mu      sync.Mutex
-	script  wsScript
-	seq     int64
-	results chan wsResult
+	ln       net.Listener
+	port     int
+	mu       sync.Mutex
+	script   wsScript
+	seq      int64
+	pokePort int64
+	results  chan wsResult
 }
 
 func newWsServer() *wsServer {
@@ -179,6 +180,12 @@ func (s *wsServer) loop() {
 		if err != nil {
 			// EMFILE while a test lowered the limit: try again
 			time.Sleep(200 * time.Microsecond)
+			continue
+		}
+		if ra, ok := c.RemoteAddr().(*net.TCPAddr); ok && int64(ra.Port) == atomic.LoadInt64(&s.pokePort) {
+			// the driver's own marker connection: everything that connected before it has been served
+			_ = c.Close()
+			s.results <- wsResult{seq: -1, fd: -1}
 			continue
 		}
 		s.mu.Lock()
@@ -267,6 +274,42 @@ func (s *wsServer) wait(seq int64, d time.Duration) *wsResult {
 			}
 		case <-t.C:
 			return nil
+		}
+	}
+}
+
+// sync returns the server's report about connection seq. When none arrives
+// soon, the driver sends a marker connection through the (sequential) server:
+// once the marker is reported, every earlier connection has been dealt with,
+// so no descriptor of the server can show up later in somebody else's census.
+func (s *wsServer) sync(seq int64) *wsResult {
+	if r := s.wait(seq, 2*time.Second); r != nil {
+		return r
+	}
+	fd, err := syscall.Socket(syscall.AF_INET, syscall.SOCK_STREAM|syscall.SOCK_CLOEXEC, 0)
+	must(err)
+	defer syscall.Close(fd)
+	must(syscall.Bind(fd, &syscall.SockaddrInet4{Addr: [4]byte{127, 0, 0, 1}}))
+	atomic.StoreInt64(&s.pokePort, int64(portOf(fd)))
+	must(syscall.Connect(fd, &syscall.SockaddrInet4{Port: s.port, Addr: [4]byte{127, 0, 0, 1}}))
+	var found *wsResult
+	t := time.NewTimer(40 * time.Second)
+	defer t.Stop()
+	for {
+		select {
+		case r := <-s.results:
+			switch {
+			case r.seq == -1:
+				atomic.StoreInt64(&s.pokePort, 0)
+				return found
+			case r.seq == seq:
+				rr := r
+				found = &rr
+			case r.conn != nil:
+				_ = r.conn.Close()
+			}
+		case <-t.C:
+			panic("websocket test server does not answer the marker connection")
 		}
 	}
 }
